@@ -22,12 +22,15 @@ for u in prop.units(tier, int(os.environ.get("VERIF_SEED", "0"))):
         n += 1
         print("== unit", u, case.get("template"))
         print("   transforms:", json.dumps(case.get("transforms"), default=str)[:900])
-        for x in case["spec"]["vars"]:
+        for x in (case.get("spec") or {"vars": []})["vars"]:
             if x.get("view_insertions"):
                 print("   view_ins[%s]:" % x["alias"], json.dumps(x["view_insertions"])[:400])
             if x["t"] in ("cat", "ca"):
                 print("   cats[%s]:" % x["alias"], [(c["id"], int(c["missing"]), c.get("numeric_value")) for c in x["cats"]], x.get("kind"))
-        print("   measures:", case["spec"]["measures"], "weighted:", case["spec"]["weight"] is not None)
+        if case.get("spec"):
+            print("   measures:", case["spec"]["measures"], "weighted:", case["spec"]["weight"] is not None)
+        else:
+            print("   mode:", case.get("mode"), [[f[0] for f in sp["facets"]] for sp in case.get("specs", [])])
         for v in hits[:2]:
             print("   ", v["key"], json.dumps(v["detail"], default=str)[:1200])
         if n >= mx:
